@@ -11,7 +11,8 @@ Inductive op :=
 | OCRecv (name : Z) (it : item) | OCInit (name : Z)
 | OCUp (name : Z) (it : item)       (* kind 4: an upload through the HTTP handler *)
 | OCUpIn (name seqIn tIn dur : Z)   (* kind 4: the same, number / time / shifted flag derived as the callback does *)
-| OCUpAbort (name seq : Z).         (* kind 4: an upload that breaks after its first chunks: refused, only the file is touched *)
+| OCUpAbort (name seq : Z)          (* kind 4: an upload that breaks after its first chunks: refused, only the file is touched *)
+| OCRefused.                        (* kind 4: an upload refused before anything is stored (track directory cannot be created) *)
 
 (** [ObsHash n h]: an observation of [n] numbers given by its polynomial hash (long states) *)
 Inductive obs := ObsOk (l : list Z) | ObsHash (n h : Z) | ObsPanic (site : string).
@@ -56,14 +57,14 @@ Definition derive_item (c : chan) (t : track) (seqIn tIn dur : Z) : res item :=
   if negb (ch_timeShift c =? 0) || negb (ch_seqShift c =? 0) then
     let tsIn := tr_tsOut t in
     do r1 <- (if negb (ch_timeShift c =? 0) then
-                do t1 <- (if negb (ch_mts c =? tsIn) then go_div "upload:div" (tIn * ch_mts c) tsIn else Ok tIn);
-                do t3 <- go_div "upload:div" ((t1 + ch_timeShift c) * tsIn) (ch_mts c);
+                do t1 <- (if negb (ch_mts c =? tsIn) then go_div "upload:div" (i64 (tIn * ch_mts c)) tsIn else Ok tIn);
+                do t3 <- go_div "upload:div" (i64 (i64 (t1 + ch_timeShift c) * tsIn)) (ch_mts c);   (* int64 product *)
                 Ok (t3, true)
               else Ok (tIn, false));
     do m <- go_div "upload:div" (ch_mdur c * tsIn) (ch_mts c);
     do q <- go_div "upload:div" (fst r1 + Z.quot m 2) m;
     let seq := u32 q in
-    Ok (mkItem seq (fst r1) dur (snd r1 || negb (seq =? seqIn)))
+    Ok (mkItem seq (u64 (fst r1)) dur (snd r1 || negb (seq =? seqIn)))
   else Ok (mkItem seqIn tIn dur false).
 
 Definition flat_files (l : list (Z * Z)) : list Z := flat_map (fun f => [fst f; snd f]) l.
@@ -156,6 +157,7 @@ Definition step (cs : c17case) (st : mstate) (o : op) : res (mstate * list Z) :=
       let files' := files_upload c name (i_seq it) files in
       do r <- chan_received c name it;
       Ok (ML (o_chan r) files', 200 :: flat_pub (o_pub r) ++ flat_chan (c_ntracks cs) (o_chan r) ++ flat_files files')
+  | ML c files, OCRefused => Ok (ML c files, [500; 0] ++ flat_chan (c_ntracks cs) c ++ flat_files files)
   | ML c files, OCUpAbort name seq =>
       let files' := files_upload c name seq files in
       Ok (ML c files', [500; 0] ++ flat_chan (c_ntracks cs) c ++ flat_files files')
